@@ -1371,10 +1371,7 @@ func (m *Monitor) onConfApplied(n *Node, e *pb.Entry, cs *pb.ConfState) {
 		m.c.Stats["two_voter_shrink"]++
 	}
 	// (a) the configuration after applying index i is the fold of the committed conf changes
-	prev := n.InitConf
-	if len(n.ConfHist) >= 2 {
-		prev = n.ConfHist[len(n.ConfHist)-2].CS
-	}
+	prev := n.confAtIndex(e.GetIndex() - 1)
 	var v2 *pb.ConfChangeV2
 	if e.GetType() == pb.EntryConfChange {
 		var cc pb.ConfChange
